@@ -7,12 +7,16 @@ set -u
 ID="$1"; M="$2"; TH="${3:-8}"; D=/tmp/seed-$ID; R=$D/repo; S=/verif/seeded/$ID/$M
 export CARGO_TARGET_DIR=$D/target CARGO_NET_OFFLINE=true
 HEAD=$(git -C /repo rev-parse HEAD)
+# already confirmed, or being confirmed by another stream
+[ -f $S/confirm.json ] && { echo "$ID/$M: already confirmed"; exit 0; }
+mkdir $D/confirm.lock 2>/dev/null || { echo "$ID/$M: worktree busy (another stream)"; exit 0; }
+trap 'rmdir $D/confirm.lock 2>/dev/null' EXIT
 restore() { git -C $R checkout -q -- . ; git -C $R clean -fdq crates >/dev/null 2>&1; }
 restore; git -C $R checkout -q --detach $HEAD || exit 2
-sh $S/demo/run.sh $R > $D/$M-confirm-clean.log 2>&1; clean_rc=$?
+bash $S/demo/run.sh $R > $D/$M-confirm-clean.log 2>&1; clean_rc=$?
 restore
 git -C $R apply $S/patch.diff || { echo "{\"applies\": false}" > $S/confirm.json; exit 1; }
-sh $S/demo/run.sh $R > $D/$M-confirm-mutated.log 2>&1; mut_rc=$?
+bash $S/demo/run.sh $R > $D/$M-confirm-mutated.log 2>&1; mut_rc=$?
 restore; git -C $R apply $S/patch.diff
 (cd $R && cargo nextest run --workspace --no-fail-fast --tool-config-file pb:/w/lib/nextest.toml --profile pb --test-threads $TH --retries 2 --offline) > $D/$M-confirm-suite.log 2>&1
 suite_rc=$?
